@@ -744,6 +744,59 @@ func ruleNoPartial(w *World, r *Report, fn string) {
 			r.add("NOPARTIAL", key, w.Pos(ret.Pos()), Violated, "failure return carries a computed value ("+describeValue(ret.Results[0])+")")
 		}
 	}
+	// a single exit `return result, err` where err is merged from several edges: on the edges
+	// that bring a non-nil error the result brought along must be the empty value too
+	zeroV := func(v ssa.Value) bool {
+		v = resolve(v)
+		if k, ok := v.(*ssa.Const); ok {
+			return k.Value == nil || k.Value.String() == "false" || k.Value.String() == "0" || k.Value.String() == `""`
+		}
+		return isEmptySliceBase(v)
+	}
+	ei := errResultIndex(f)
+	for _, ret := range returnsOf(f) {
+		if ei < 0 || ei >= len(ret.Results) || len(ret.Results) < 2 || e.isFailureReturn(f, ret) {
+			continue
+		}
+		ep, ok := ret.Results[ei].(*ssa.Phi)
+		if !ok {
+			continue
+		}
+		res := ret.Results[0]
+		for i, edge := range ep.Edges {
+			if i >= len(ep.Block().Preds) {
+				break
+			}
+			pred := ep.Block().Preds[i]
+			if classifyErrValue(f, edge, pred, map[ssa.Value]bool{}) != retError {
+				continue
+			}
+			rv := res
+			if rp, isPhi := res.(*ssa.Phi); isPhi && rp.Block() == ep.Block() && i < len(rp.Edges) {
+				rv = rp.Edges[i]
+			}
+			partial := false
+			for _, leaf := range phiLeaves(resolve(rv)) {
+				if !zeroV(leaf) {
+					if c, isCall := resolve(leaf).(*ssa.Call); isCall && builtinName(c) == "append" {
+						partial = true
+					}
+				}
+			}
+			if lp, isPhi := resolve(rv).(*ssa.Phi); isPhi {
+				// a loop-carried list that is appended to
+				ai := appendChain(lp)
+				if len(ai.Appends) > 0 {
+					partial = true
+				}
+			}
+			if partial {
+				n++
+				r.add("NOPARTIAL", fmt.Sprintf("%s / merged return / edge#%d", fn, i+1), w.Pos(ret.Pos()), Violated,
+					"on the edge that brings the error "+describeValue(edge)+" the single return still carries the list built so far ("+describeValue(rv)+"): a partial result escapes together with the error")
+			}
+		}
+	}
 	if n == 0 {
 		r.add("NOPARTIAL", fn, w.Pos(f.Pos()), Undecided, "no failure return found")
 	}
